@@ -473,6 +473,47 @@ func main() {
 		cases = append(cases, &caseT{id: fmt.Sprintf("group-name-as-plain-field-%d", k), doc: d, types: tm, typeOrder: to, outDir: "./cnt" + strconv.Itoa(k),
 			muts: []mutation{{"group-name-also-a-plain-field", fmt.Sprintf("message CounterOnlyReport (placed before the group's message: %v) has %s as a plain field; %s has it as a group", before, grp.Name, owner.Name)}}})
 	}
+	// a repeating group (and its counter field) renamed so that "No" stands somewhere else than at the start of the
+	// name, or not at all
+	for k, mk := range []func(string) string{
+		func(old string) string { return "Routing" + old },                         // NoHops -> RoutingNoHops
+		func(old string) string { return strings.TrimPrefix(old, "No") + "Notes" }, // NoHops -> HopsNotes
+	} {
+		d, tm, to := clone(bases[0])
+		var oldName string
+		for _, m := range d.Messages {
+			for _, kid := range m.Kids {
+				if kid.XMLName.Local == "group" && oldName == "" && strings.HasPrefix(kid.Name, "No") {
+					oldName = kid.Name
+				}
+			}
+		}
+		if oldName == "" {
+			continue
+		}
+		newName := mk(oldName)
+		var ren func(ms []*xMember)
+		ren = func(ms []*xMember) {
+			for _, m := range ms {
+				if m.Name == oldName {
+					m.Name = newName
+				}
+				ren(m.Kids)
+			}
+		}
+		for _, cont := range append(append([]*xContainer{d.Header, d.Trailer}, d.Messages...), d.Components...) {
+			if cont != nil {
+				ren(cont.Kids)
+			}
+		}
+		for _, f := range d.Fields {
+			if f.Name == oldName {
+				f.Name = newName
+			}
+		}
+		cases = append(cases, &caseT{id: fmt.Sprintf("group-renamed-%d", k), doc: d, types: tm, typeOrder: to, outDir: "./grn" + strconv.Itoa(k),
+			muts: []mutation{{"rename-group", "group and counter field " + oldName + " renamed to " + newName}}})
+	}
 	// every cast the generator knows, applied to a type no session pipeline depends on (the shipped mappings use
 	// String, Bool, Int and Float only)
 	for _, tc := range [][2]string{{"DATA", "Raw"}, {"UTCTIMEONLY", "Time"}, {"LOCALMKTDATE", "Time"}, {"CURRENCY", "Raw"}, {"DATA", "Int"}, {"PRICEOFFSET", "String"}} {
